@@ -92,6 +92,9 @@ pub enum Fault {
     Partition { failed: u32 },
     /// the server process dies (nothing survives) and a new one binds the same address later
     Restart { down_ms: u64 },
+    /// the server is replaced by one that answers every (re-)registration with this non-bind error
+    /// code: an unrecoverable error, which must be reported at once, without further attempts
+    Impostor { code: u32 },
 }
 
 #[derive(Clone, Copy, Debug, Serialize, Deserialize)]
@@ -293,7 +296,7 @@ async fn scenario(world: Rc<World>, sc: RcScript) -> AResult<(Vec<OutageResult>,
                         Err(e) => (false, e.to_string()),
                     };
                     l.borrow_mut().ops.push(Op { idx: i, started_ms: started, finished_ms: finished, ok, err: err.clone() });
-                    if err.contains("Too many") {
+                    if err.contains("Too many") || err.contains("Failed to open stream") {
                         l.borrow_mut().victim_final = Some(err);
                         poke();
                         break;
@@ -357,6 +360,12 @@ async fn scenario(world: Rc<World>, sc: RcScript) -> AResult<(Vec<OutageResult>,
                 res.healed_ms = Some(t0);
             }
             Fault::Partition { .. } => world.net.set_partition(vg, true),
+            Fault::Impostor { code } => {
+                world.stop_server();
+                start_impostor(&world, code)?;
+                victim.verif_close_connection().await;
+                res.healed_ms = Some(t0);
+            }
             Fault::Restart { down_ms } => {
                 world.stop_server();
                 let w = world.clone();
@@ -502,6 +511,35 @@ async fn scenario(world: Rc<World>, sc: RcScript) -> AResult<(Vec<OutageResult>,
     Ok((results, logs, vg))
 }
 
+/// A QUIC server with the real TLS configuration that refuses every registration with `code`.
+fn start_impostor(world: &Rc<World>, code: u32) -> AResult<()> {
+    use quinn::{Endpoint, EndpointConfig, IdleTimeout, VarInt};
+    use selium_protocol::{BiStream, ErrorPayload, Frame};
+    use selium_server::quic::{load_root_store, read_certs, server_config, ConfigOptions};
+    let certs = world.certs.clone();
+    let root_store = load_root_store(certs.server.join("ca.der"))?;
+    let (chain, key) = read_certs(certs.server.join("localhost.der"), certs.server.join("localhost.key.der"))?;
+    let config = server_config(root_store, chain, key, ConfigOptions { keylog: false, stateless_retry: false, max_idle_timeout: IdleTimeout::from(VarInt::from_u32(SERVER_IDLE_MS)) })?;
+    let sock = world.net.bind_server();
+    let endpoint = Endpoint::new_with_abstract_socket(EndpointConfig::default(), Some(config), sock, std::sync::Arc::new(super::net::SimRuntime))?;
+    tokio::task::spawn_local(async move {
+        while let Some(connecting) = endpoint.accept().await {
+            tokio::task::spawn_local(async move {
+                let Ok(conn) = connecting.await else { return };
+                while let Ok(stream) = conn.accept_bi().await {
+                    let mut s = BiStream::from(stream);
+                    tokio::task::spawn_local(async move {
+                        let _ = s.next().await;
+                        let _ = s.send(Frame::Error(ErrorPayload { code, message: "refused by the impostor".into() })).await;
+                        tokio::time::sleep(Duration::from_secs(2)).await;
+                    });
+                }
+            });
+        }
+    });
+    Ok(())
+}
+
 pub fn gen_backoff(rng: &mut Rng, wide: bool) -> BackoffCfg {
     let strategy = match rng.below(3) {
         0 => Strategy::Constant,
@@ -528,6 +566,11 @@ pub fn gen_c12(rng: &mut Rng) -> RcScript {
             Outage { fault, quiet_ms_before: *rng.pick(&[0u64, 300, 1_000, 2_500]) }
         })
         .collect();
+    let mut outages: Vec<Outage> = outages;
+    if backoff.max_attempts >= 1 && rng.chance(1, 6) {
+        // INVALID_TOPIC_NAME (4), CLOUD_AUTH_FAILED (6), an unknown code: anything but the bind error
+        outages.push(Outage { fault: Fault::Impostor { code: *rng.pick(&[4u32, 6, 0, 77]) }, quiet_ms_before: 500 });
+    }
     RcScript { net: NetCfg { seed: rng.next(), loss_ppm: *rng.pick(&[0u32, 0, 10_000]), dup_ppm: 0, min_delay_ms: rng.range(1, 10) as u32, jitter_ms: *rng.pick(&[0u32, 5]) }, rt_seed: rng.next(), kind, backoff, outages, timing_only: false }
 }
 
@@ -592,6 +635,7 @@ pub fn execute(prop: &str, sc: &RcScript, opts: &ExecOpts) -> Outcome {
                             Fault::Close => out.fault("connection_closed_by_hook"),
                             Fault::Partition { .. } => out.fault("partition_held_for_failed_attempts"),
                             Fault::Restart { .. } => out.fault("server_restart"),
+                            Fault::Impostor { .. } => {}
                         }
                         if res.attempts.len() >= 3 && res.recovered_ms.is_some() {
                             out.probe("recovery_after_two_or_more_failed_attempts");
@@ -698,7 +742,32 @@ fn judge_recovery(prop: &str, sc: &RcScript, results: &[OutageResult], logs: &Lo
                 }
             }
             Fault::Restart { .. } => (max >= 3, max == 0),
+            Fault::Impostor { .. } => (false, false),
         };
+        if let Fault::Impostor { code } = res.fault {
+            out.fault("server_replaced_by_impostor");
+            // the refusal is not a bind error: it must surface as that error, after one attempt
+            let first_delay = sc.backoff.law_ms(1).min(100_000) as u64;
+            match &logs.victim_final {
+                Some(e) if e.contains("Failed to open stream") => {
+                    out.probe("unrecoverable_error_reported");
+                    if res.attempts.len() > 1 && sc.net.loss_ppm == 0 {
+                        out.violate(prop, "retried-after-unrecoverable-error", &k, format!("outage {oi}: the server refused the re-registration with code {code}; {} attempts were made", res.attempts.len()));
+                    }
+                }
+                Some(e) if e.contains("Too many") => {
+                    if sc.net.loss_ppm == 0 {
+                        out.violate(prop, "unrecoverable-error-not-reported", &format!("{k}:exhausted"), format!("outage {oi}: the server refused the re-registration with code {code} (not a bind error); the stream kept retrying and ended with too-many-retries"));
+                    }
+                }
+                other => {
+                    if sc.net.loss_ppm == 0 && max >= 1 {
+                        out.violate(prop, "unrecoverable-error-not-reported", &format!("{k}:silent"), format!("outage {oi}: the server refused the re-registration with code {code}; the stream's operation ended with {other:?} (first delay {first_delay} ms)"));
+                    }
+                }
+            }
+            continue;
+        }
         if must_recover && res.recovered_ms.is_none() {
             let tag = if res.exhausted_ms.is_some() { "gave-up-within-budget" } else { "did-not-recover" };
             out.violate(
@@ -760,6 +829,7 @@ fn fault_name(f: Fault) -> &'static str {
         Fault::Close => "close",
         Fault::Partition { .. } => "partition",
         Fault::Restart { .. } => "restart",
+        Fault::Impostor { .. } => "impostor",
     }
 }
 
@@ -903,6 +973,11 @@ impl Family for ReconnectFamily {
                 }
                 let mut c = sc.clone();
                 c.outages[i].fault = Fault::Close;
+                out.push(c);
+            }
+            if let Fault::Impostor { .. } = o.fault {
+                let mut c = sc.clone();
+                c.outages.remove(i);
                 out.push(c);
             }
             if let Fault::Restart { .. } = o.fault {
